@@ -241,7 +241,8 @@ def step (cs : CState) (fs : List String) (obs : String) : CState × String × S
         | "shift", [d] => (shift st (nat d), "shifted", fun _ => "ok")
         | "setlimit", [n] => (setLimit st (int n), "limit-set", fun _ =>
             if ires = "limit-not-followed" then "bad:limit-change-not-followed" else "ok")
-        | "reopen", [] => (reopen st, "reopened", fun _ => "ok")
+        | "setbudget", [_pct] => (st, "budget-set", fun _ => if ires = "budget-not-followed" then "bad:limit-change-not-followed" else "ok")
+        | "reopen", _ => (reopen st, "reopened", fun _ => "ok")   -- also `reopen litter`: a restart over a dirty directory starts empty
         | _, _ => (st, "bad-op", fun _ => "bad:bad-op")
       -- timing ambiguity: an eviction decided between candidates closer than the clock noise
       let ambiguous := (op = "evict" || op = "ensure" || op = "store") &&
